@@ -47,7 +47,7 @@ func (u *Universe) Leaves(full bool) []*Ty {
 			l = append(l, B(b))
 		}
 		for _, pkg := range []string{"in", "out"} {
-			for _, n := range []string{"MyInt", "MyStr", "Color", "Mode", "P", "PU", "Iface"} {
+			for _, n := range []string{"MyInt", "MyStr", "Color", "Mode", "P", "PU", "Iface", "NS", "NM"} {
 				l = append(l, N(u.Get(pkg, n)))
 			}
 			l = append(l, N(u.Get(pkg, "G"), B("int")))
